@@ -42,7 +42,10 @@ def _cases(draw, tier):
     salt = draw(strategies.salts)
     if large:
         # ids with two digits, many projects per lecturer: no enumeration needed for this oracle
-        inst = draw(strategies.instances(LARGE[tier]))
+        if pct(draw) < 50:
+            inst = draw(strategies.instances(LARGE[tier]))
+        else:
+            inst = draw(_lp.embedded_instances())
         opts = draw(strategies.option_sets(inst, min_crit=1, max_crit=3, stab=False))
         return {'inst': inst, 'opts': opts, 'choices': [], 'mode': 'cbc', 'salt': salt}
     inst = draw(strategies.instances(strategies.SIZES[tier]))
@@ -54,7 +57,11 @@ def _cases(draw, tier):
     else:
         opts = draw(strategies.option_sets(inst, min_crit=1, max_crit=2))
     choices = draw(strategies.choice_lists_nonempty) if mode == 'eb' else []
-    return {'inst': inst, 'opts': opts, 'choices': choices, 'mode': mode, 'salt': salt}
+    decoy = _lp.draw_decoy(draw, inst)
+    _ret = {'inst': inst, 'opts': opts, 'choices': choices, 'mode': mode, 'salt': salt}
+    if decoy:
+        _ret['decoy'] = decoy
+    return _ret
 
 
 def strategy(tier):
